@@ -218,6 +218,10 @@ def installed(streams, clock=None, sandbox=None, capture=None, sync_threads=True
     sys.stdout, sys.stderr = capture.out, capture.err
     cm = warnings.catch_warnings(record=True)
     wlist = cm.__enter__()
+    # the process-wide "already shown once" table must not carry over from the runs this worker
+    # executed before (a library that switches to the "once" filter would otherwise behave
+    # differently in the first run of a worker than in all later ones)
+    getattr(warnings, "onceregistry", {}).clear()
     warnings.simplefilter("always")
     capture.warnings = wlist
     try:
